@@ -5,6 +5,7 @@
 -/
 import LLTD.Props.C14
 import LLTD.Lemmas.TranslatedEq
+import LLTD.Lemmas.TranslatedTick
 
 namespace LLTD.C14T
 open LLTD LLTD.Spec LLTD.TEq
@@ -80,6 +81,23 @@ theorem ignore_translated (e : T.Env) (hnow : e.nowS < u64) (a : T.automata) (in
   have : (fsmOfC (T.switch_state_mapping 2 e a inp).autom).state = mapSpec (fsmOfC a).state inp := hh.2
   rw [C14.ignore (fsmOfC a).state inp hi] at this
   exact this
+
+/-- C14's tick-driven clause for the translated tick: once the 30 s inactivity deadline has passed, the tick (as compiled from the C
+    text) leaves the mapping engine idle, the charge counter and both deadlines cleared and the session table empty -/
+theorem tick_inactive_translated (e : T.Env) (he : EnvOk e) (m en : T.automata) (t : T.session_table) (p : T.lltd_automata_tick_port)
+    (mx : T.mapping_state) (bx : T.band_state) (ltx : Nat)
+    (hm : AutOk m) (him : IsMapping m) (hen : EnumOk en) (ht : TickTblOk t) (hb : BandOk bx) (hltx : ltx ≤ e.nowMs)
+    (hs : m.current_state < 3) :
+    let r := T.automata_tick e m en t p mx bx ltx
+    holdsC14Tick mx.inactive_timeout_ts e.nowS (fsmOfC r.mapping) (mapOfC r.mapping_extra) (tableOfC r.sessions).live.length = true := by
+  intro r
+  obtain ⟨h1, _, _⟩ := automata_tick_eq e he m en t p mx bx ltx hm him hen ht hb hltx
+  have hn : e.nowMs / 1000 < u64 := by have := he.hc.1; unfold u64 at *; omega
+  obtain ⟨f', m', t', a1, a2, a3⟩ := C14.tick_inactive (fsmOfC m) hs (mapOfC mx) (some (fsmOfC en, some (bandOfC bx))) (tableOfC t) ltx .wired e.nowMs hn
+  rw [h1] at a1 a2
+  simp only [Option.some.injEq, Prod.mk.injEq] at a1 a2
+  rw [← a1.1, ← a1.2, ← a2, ← he.hs] at a3
+  exact a3
 
 example : ClockOk { nowMs := 5000, nowS := 5 } := by refine ⟨by decide, by decide⟩
 example : (T.mapping_reset_inactive_timeout { nowMs := 5000, nowS := 5 } { ctc := 3, charge_timeout_ts := 6, inactive_timeout_ts := 0 }).mstate.inactive_timeout_ts = 35 := by decide
